@@ -41,13 +41,13 @@ def main():
         rc, out = sh(f"cd {VERIF} && VERIF_NO_ESCALATE=1 timeout 1200 ./check {pid} --tier quick")
         res["check_rc"] = rc
         lines = out.splitlines()
-        keep = []
+        shown = []
         for i, l in enumerate(lines):
             if l.startswith(("VIOLATION", "OK ", "KNOWN")):
-                keep.append(l)
+                shown.append(l)
                 if l.startswith("VIOLATION") and i + 1 < len(lines):
-                    keep.append(lines[i + 1])
-        res["check_out"] = keep[:8]
+                    shown.append(lines[i + 1])
+        res["check_out"] = shown[:8]
     finally:
         sh(f"git -C {REPO} checkout -- .")
     res["caught"] = res.get("check_rc") == 1
